@@ -117,9 +117,25 @@ def handle (op : String) (j : Json) : Except String Json := do
         | "virtual" => .virtual | "static" => .static | _ => .member,
       cav := strD j "cav", override := boolFieldD j "override" false, init := strD j "init",
       contents := .str (strD j "contents"), scope := optStr j "scope" }
-    let model := Json.mkObj [("decl", S f.asDecl), ("def", S f.asDef)]
+    -- `checked`: the description goes through the constructor's own validation first (a refused description
+    -- renders nothing)
+    let checked := boolFieldD j "checked" false
+    let model := if checked then
+        resJson (fun (p : Str × Str) => Json.mkObj [("decl", S p.1), ("def", S p.2)]) f.render
+      else Json.mkObj [("decl", S f.asDecl), ("def", S f.asDef)]
+    let rendered := fun (impl : Json) => if checked then fieldD impl "ok" Json.null else impl
     let failed := if impl.isNull then [] else
-      match (strField impl "decl", strField impl "def") with
+      if checked && hasField impl "err" then
+        -- a refusal must be the library's own error, and only descriptions the specification calls unrenderable
+        -- may be refused: no name, `virtual` without an owner, a pure-specifier on a non-virtual function
+        (if ParseOpsTag impl == "lib:CppGenError" then [] else ["refused-with:" ++ ParseOpsTag impl]) ++
+        (if f.name.isEmpty || (f.pfx.isVirtual && f.scope.isNone) || ((L "0").isPrefixOf f.init && !f.pfx.isVirtual)
+         then [] else ["renderable-description-refused"])
+      else
+      (if checked && ((L "0").isPrefixOf f.init && !f.pfx.isVirtual) then ["pure-specifier-on-a-non-virtual-function-accepted"] else []) ++
+      (if checked && (f.pfx.isVirtual && f.scope.isNone) then ["virtual-without-an-owner-accepted"] else []) ++
+      (if checked && f.name.isEmpty then ["nameless-function-accepted"] else []) ++
+      match (strField (rendered impl) "decl", strField (rendered impl) "def") with
       | (.ok d, .ok e) => Spec.holdsC20_fn d e f.scope (!f.init.isEmpty) (some (f.params.map (·.ty.dflt)))
       | _ => ["impl-error"]
     pure (Json.mkObj [("model", model), ("failed", clauses failed)])
@@ -130,8 +146,18 @@ def handle (op : String) (j : Json) : Except String Json := do
     let c : Constructor := {
       scope := cscope, «explicit» := cexp, params := cparams, init := strD j "init",
       mil := (strListField j "mil").toOption.getD [], contents := .str (strD j "contents") }
-    let model := Json.mkObj [("decl", S c.asDecl), ("def", S c.asDef)]
+    let checked := boolFieldD j "checked" false
+    let model := if checked then
+        resJson (fun (p : Str × Str) => Json.mkObj [("decl", S p.1), ("def", S p.2)]) c.render
+      else Json.mkObj [("decl", S c.asDecl), ("def", S c.asDef)]
+    let impl0 := impl
+    let impl := if checked && !impl0.isNull && !hasField impl0 "err" then fieldD impl0 "ok" Json.null else impl0
     let failed := if impl.isNull then [] else
+      if checked && hasField impl0 "err" then
+        (if ParseOpsTag impl0 == "lib:CppGenError" then [] else ["refused-with:" ++ ParseOpsTag impl0]) ++
+        (if !c.init.isEmpty && !c.mil.isEmpty then [] else ["renderable-description-refused"])
+      else
+      (if checked && !c.init.isEmpty && !c.mil.isEmpty then ["initialised-constructor-with-member-initialisers-accepted"] else []) ++
       match (strField impl "decl", strField impl "def") with
       | (.ok d, .ok e) =>
         -- constructors have no return type: read them with a dummy one in front
